@@ -82,6 +82,10 @@ var zzTruthPositions = []string{
 	"return (X || false) ? 1 : 0;",
 	"return (false || X) ? 1 : 0;",
 	"RUN",
+	"return !X ? 1 : 0;",
+	"if (!X) { return 1; } return 0;",
+	"return (!X && true) ? 1 : 0;",
+	"y = !X; return y ? 1 : 0;",
 }
 
 func zzSubst(tmpl, expr string) string {
@@ -126,6 +130,10 @@ func ZZ_C05_Positions(sv *zzsv.T) {
 	sv.Assert("C05.position.noerror", err == nil)
 	if err != nil {
 		return
+	}
+	if pos > 7 {
+		// positions that consume !v: true for false and null only
+		want = val.t == tNull || (val.t == tBool && !val.b)
 	}
 	w := int64(0)
 	if want {
